@@ -166,3 +166,68 @@ func LockTimeProgram(t *rapid.T, flags interp.Flags) (Program, LockCtx) {
 	}
 	return Program{Unlock: unlock, Lock: lock, Flags: f, Level: "L5-locktime"}, c
 }
+
+// DeepStack draws a program that works on a deep data stack next to a busy alt stack: a burst of
+// OP_DEPTH (each pushes a distinct number) up to a depth around a power of two or a typical initial
+// capacity (16, 32, 64, 128, 256), then a mix of OP_DEPTH, TOALTSTACK / FROMALTSTACK, PICK / ROLL of
+// deep items, DUP forms and DROPs that moves the depth back and forth across that point. Every item
+// is distinct, so storage shared between the two stacks, or between items, shows in the per-step
+// comparison with the reference.
+func DeepStack(t *rapid.T, flags interp.Flags) Program {
+	around := rapid.SampledFrom([]int{16, 32, 64, 64, 128, 128, 256}).Draw(t, "ds_around")
+	depth, alt := 0, 0
+	var lock []byte
+	burst := around - rapid.IntRange(1, 6).Draw(t, "ds_short")
+	for i := 0; i < burst; i++ {
+		if i%7 == 3 { // a few items go to the alt stack early
+			lock = append(lock, 0x74, 0x6b)
+			alt++
+			continue
+		}
+		lock = append(lock, 0x74)
+		depth++
+	}
+	n := rapid.IntRange(10, 90).Draw(t, "ds_ops")
+	for i := 0; i < n; i++ {
+		switch k := rapid.IntRange(0, 11).Draw(t, "ds_op"); {
+		case k <= 3:
+			lock = append(lock, 0x74) // DEPTH
+			depth++
+		case k == 4:
+			lock = append(lock, 0x74, 0x6b) // DEPTH TOALTSTACK
+			alt++
+		case k == 5 && alt > 0:
+			lock = append(lock, 0x6c) // FROMALTSTACK
+			alt--
+			depth++
+		case k == 6 && depth >= 1:
+			lock = append(lock, 0x6b) // TOALTSTACK
+			alt++
+			depth--
+		case k == 7 && depth >= 2:
+			j := rapid.IntRange(0, depth-1).Draw(t, "ds_pick")
+			lock = append(lock, Push(interp.EncodeNum(big.NewInt(int64(j))), 0)...)
+			lock = append(lock, 0x79) // PICK
+			depth++
+		case k == 8 && depth >= 2:
+			j := rapid.IntRange(0, depth-1).Draw(t, "ds_roll")
+			lock = append(lock, Push(interp.EncodeNum(big.NewInt(int64(j))), 0)...)
+			lock = append(lock, 0x7a) // ROLL
+		case k == 9 && depth >= 3:
+			lock = append(lock, 0x6f) // 3DUP
+			depth += 3
+		case k == 10 && depth >= 1:
+			lock = append(lock, 0x75) // DROP
+			depth--
+		default:
+			lock = append(lock, 0x74)
+			depth++
+		}
+	}
+	lock = append(lock, 0x51)
+	f := flags
+	if len(lock) > 480 { // keep within the pre-genesis operation count only when it fits
+		f |= interp.FlagAfterGenesis
+	}
+	return Program{Unlock: []byte{0x51}, Lock: lock, Flags: f &^ interp.FlagCleanStack, Level: "L6-deepstack"}
+}
